@@ -170,7 +170,7 @@ func freshVal(T types.Type, prefix string) Val {
 	kinds := leafKinds(T)
 	for i, s := range ss {
 		p := prefix
-		if kinds[i] == lkRef {
+		if kinds[i] == lkRef || kinds[i] == lkPl {
 			p = "ref!" + prefix
 		}
 		L[i] = FreshVar(p, s)
